@@ -248,3 +248,69 @@ Proof. intros H. unfold ts_client. destruct (Z.eqb_spec st 400); [contradiction|
 Lemma ts_client_go_validation vs : vs <> [] ->
   exists v, ts_client 400 (Some (pmsg_pj (PValidation vs))) = TSValidation v.
 Proof. destruct vs as [|fd r]; [congruence|]. intros _. cbn. eauto. Qed.
+
+(* ---- size classes -------------------------------------------------------------------------------------------------- *)
+(* whole calls, no hook, both sides reading the content type alike: the complete violation list and the
+   complete message reach the caller WHATEVER their length (no bound on the list or the text appears) *)
+Lemma call_any_size_validation vs cl ca :
+  let ct := effective_ct cl ca in
+  client_enc ct = server_enc ct ->
+  go_call_outcome (SHandler (HValidation vs)) None cl ca = CRValidation vs.
+Proof. cbv zeta. intros E. apply call_validation; auto. Qed.
+
+Lemma call_any_size_rules rs cl ca :
+  let ct := effective_ct cl ca in
+  client_enc ct = server_enc ct ->
+  go_call_outcome (SRule rs) None cl ca = CRValidation (map (fun pv => (violation_field (fst pv), snd pv)) rs).
+Proof. cbv zeta. intros E. apply call_validation; auto. Qed.
+
+Lemma call_any_size_message m cl ca :
+  let ct := effective_ct cl ca in
+  client_enc ct = server_enc ct ->
+  go_call_outcome (SHandler (HPlain m)) None cl ca = CRError m /\
+  go_call_outcome (SHandler (HSebuf m)) None cl ca = CRError m.
+Proof.
+  cbv zeta. intros E.
+  assert (L : etext_string (lit m) = m) by (unfold etext_string, lit; cbn; apply app_nil_r).
+  split.
+  - rewrite <- L at 2. apply call_error; auto; cbn; lia.
+  - rewrite <- L at 2. apply call_error; auto; cbn; lia.
+Qed.
+
+Lemma rep_str_length n u : List.length (rep_str n u) = n * List.length u.
+Proof. induction n as [|n IH]; [reflexivity|]. cbn. now rewrite app_length, IH. Qed.
+Lemma sized_text_length n : List.length (sized_text n) = 64 * n.
+Proof. unfold sized_text. rewrite rep_str_length. change (List.length unit64) with 64. lia. Qed.
+Lemma gen_viols_length n : List.length (gen_viols n) = n.
+Proof. unfold gen_viols. now rewrite map_length, seq_length. Qed.
+Lemma gen_rules_length n : List.length (gen_rules n) = n.
+Proof. unfold gen_rules. now rewrite map_length, seq_length. Qed.
+
+(* the digest used to compare long texts / long lists leaves every short document alone *)
+Fixpoint short_json (j : json) : bool :=
+  match j with
+  | JStr x => Nat.leb (List.length x) long_limit
+  | JArr l => Nat.leb (List.length l) long_array_limit &&
+              (fix go (l : list json) : bool := match l with [] => true | x :: r => short_json x && go r end) l
+  | JObj kv => (fix go (l : list (str * json)) : bool := match l with [] => true | (k, v) :: r => short_json v && go r end) kv
+  | _ => true
+  end.
+
+Fixpoint digest_json_short (j : json) : short_json j = true -> digest_json j = j.
+Proof.
+  destruct j as [| b | z | x | l | kv]; intros H; try reflexivity.
+  - cbn [short_json] in H. apply Nat.leb_le in H. cbn [digest_json].
+    destruct (Nat.ltb_spec long_limit (List.length x)); [lia|reflexivity].
+  - cbn [short_json] in H. apply andb_true_iff in H as [H1 H2]. apply Nat.leb_le in H1.
+    cbn [digest_json]. destruct (Nat.ltb_spec long_array_limit (List.length l)) as [Hlt|Hle]; [lia|]. f_equal.
+    clear H1 Hle. revert H2. induction l as [|a r IH]; intros H2; [reflexivity|].
+    apply andb_true_iff in H2 as [Ha Hr]. rewrite (digest_json_short a Ha). f_equal. apply IH. exact Hr.
+  - cbn [short_json] in H. cbn [digest_json]. f_equal.
+    revert H. induction kv as [|[k v] r IH]; intros H; [reflexivity|].
+    apply andb_true_iff in H as [Hv Hr]. rewrite (digest_json_short v Hv). f_equal. apply IH. exact Hr.
+Qed.
+
+(* and a long text is told apart by its length *)
+Lemma digest_long_string x : long_limit < List.length x ->
+  digest_json (JStr x) = long_mark (s "$long-string") (List.length x) (str_hash x).
+Proof. intros H. cbn [digest_json]. destruct (Nat.ltb_spec long_limit (List.length x)); [reflexivity|lia]. Qed.
